@@ -1357,9 +1357,12 @@ func c14Exec(r *sim.Run, sci interface{}) {
 				}
 				lateSubs[id][f][qs[i]] = true
 			}
-			if suback != nil {
-				lateWhy[id] = cleaned[id]
+			if cleaned[id] != "" {
 				r.Fault("subscribe_processed_after_cleanup")
+				if suback != nil {
+					lateWhy[id] = cleaned[id]
+					r.Probe("disc.late_subscribe_after_cleanup_was_acknowledged")
+				}
 			}
 		case nBad == 0:
 			if suback == nil || suback.MessageID != pkt.MessageID || len(suback.ReturnCodes) != len(fs) {
